@@ -57,7 +57,7 @@ var c18Templates = []string{
 	`mapscripts M { T3 [ VAR_A, 1 L2 ] }`,
 }
 
-var c18EditWords = []string{"(", ")", "{", "}", "[", "]", ",", ":", "*", "=", "==", "!", "&&", "||", `"`, "`", "value()", "value(", "0", "-1", "99999999999999999999", "9223372036854775807", "4000000000000", "٣", "_", "poryswitch", "format", "case", "default", "if", "while", "continue", "break", "script", "text", "const", "global", "�", "\x00", "#", `"bogus"`, `"TEST"`}
+var c18EditWords = []string{"(", ")", "{", "}", "[", "]", ",", ":", "*", "=", "==", "!", "&&", "||", `"`, "`", "value()", "value(", "0", "-1", "99999999999999999999", "9223372036854775807", "4000000000000", "٣", "_", "poryswitch", "format", "case", "default", "if", "while", "continue", "break", "script", "text", "const", "global", "�", "\x00", "#", "/*", "/*/", `"bogus"`, `"TEST"`}
 
 // c18Tokens splits a template into its tokens (brackets and commas glued to words are split off).
 func c18Tokens(tpl string) []string {
